@@ -35,11 +35,26 @@ def multiword(rnd, count):
             else:               # plain EXT: numbering continues at 32 (undefined)
                 words.append({"fields": rnd.sample(range(23), rnd.randrange(0, 4))})
         out.append("rtp " + hexs(rtbuild.build(words, rnd, trailer=bytes(rnd.getrandbits(8) for _ in range(rnd.choice([0, 3, 24]))))))
+    # unconstrained word structure: undefined fields (18, 23..28), resets and vendor namespaces in any order, with
+    # data behind the header so that a wrongly resumed decode has something to read
+    for _ in range(count):
+        words = []
+        for i in range(rnd.randrange(2, 6)):
+            w = {"fields": rnd.sample(range(29), rnd.randrange(0, 4))}
+            if rnd.random() < 0.3:
+                w["fields"] = sorted(set(w["fields"]) | {rnd.choice([18, 23, 24, 28])})
+            if rnd.random() < 0.45:
+                w["reset"] = True
+            if rnd.random() < 0.35:
+                w["vendor"] = bytes(rnd.getrandbits(8) for _ in range(rnd.choice([0, 1, 2, 6])))
+            words.append(w)
+        out.append("rtp " + hexs(rtbuild.build(words, rnd, trailer=bytes(rnd.getrandbits(8) for _ in range(rnd.choice([8, 16, 40]))))))
     return out
 
 
 def malformed(rnd, count):
-    out = ["rtp -", "rtp 00", "rtp 00000800000000", "rtp 0000080000000000", "rtp 0100080000000000", "rtp 0000070000000000", "rtp 0000090000000000"]
+    out = ["rtp 00001b00000000c0000000a0000004a00200000001020304000055",     # regression: stale namespace offset after an undefined field
+           "rtp -", "rtp 00", "rtp 00000800000000", "rtp 0000080000000000", "rtp 0100080000000000", "rtp 0000070000000000", "rtp 0000090000000000"]
     for _ in range(count):
         good = bytearray(rtbuild.build([{"fields": rnd.sample(range(23), rnd.randrange(0, 10))}], rnd))
         k = rnd.random()
